@@ -168,7 +168,7 @@ def recheck(pid, tier, seed, idxs):
         if len(work) == len(want):
             break
     with mp.get_context("fork").Pool(min(16, max(1, len(work)))) as pool:
-        out = {o["idx"]: o.get("obs") for o in pool.imap_unordered(_work, work)}
+        out = {o["idx"]: [o.get("obs"), len(o.get("violations", []))] for o in pool.imap_unordered(_work, work)}
     print("RECHECK " + json.dumps(out))
     return 0
 
@@ -282,10 +282,21 @@ def main(argv=None):
             print(f"[{pid}] determinism re-execution failed (exit 2)")
             return 2
         again = json.loads(line[0][8:])
-        nondet = [i for i in re_idx if again.get(str(i)) != obs.get(i)]
+        nondet = [i for i in re_idx if (again.get(str(i)) or [None])[0] != obs.get(i)]
         if nondet:
-            print(f"[{pid}] NONDETERMINISM in the harness: cases {nondet[:10]} observed differently in a fresh process")
-            return 2
+            # a case that is observed differently in a fresh process AND violates the property in one of the two executions
+            # is history-dependent behaviour of the implementation (e.g. a value-keyed cache filled by an earlier case of
+            # the same worker): that is reported as a violation. Differences without any violation are a harness problem.
+            withviol = [i for i in nondet if (again.get(str(i)) or [None, 0])[1] or any(v["idx"] == i for v in viols)]
+            if not withviol:
+                print(f"[{pid}] NONDETERMINISM in the harness: cases {nondet[:10]} observed differently in a fresh process")
+                return 2
+            for i in withviol:
+                if not any(v["idx"] == i for v in viols):
+                    viols.append({"kind": "history_dependent", "tags": {}, "idx": i, "detail": "this case violates the property "
+                                  "when executed in a fresh process but not after the earlier cases of its worker (or the "
+                                  "reverse): the implementation's result depends on what was computed before"})
+            print(f"[{pid}] history-dependent behaviour: cases {withviol[:10]} are observed differently in a fresh process")
 
     findings = load_findings()
     known_hits = {}
